@@ -36,7 +36,9 @@ def _case(draw):
     cbin = draw(st.booleans())
     case = {"spec": spec, "content_seed": draw(st.integers(0, 2 ** 32 - 1)),
             "content_mode": draw(st.sampled_from(["full", "full", "ramp"])),
-            "cbin": cbin, "chunk": draw(st.integers(5, 90)), "sort": draw(st.sampled_from([True, True, False]))}
+            "cbin": cbin, "chunk": draw(st.integers(5, 90)), "sort": draw(st.sampled_from([True, True, False])),
+            # how the reader is built: directly, from a str path, with open=False + open(), or open=False + context manager
+            "how": draw(st.sampled_from(["default", "default", "str", "deferred", "context"]))}
     nops = draw(st.integers(24, 40))
     ops = []
     for _ in range(nops):
@@ -86,7 +88,14 @@ def run_case(case, ctx):
         binf = rec.write_recording(d, spec, D)
         fs = spec["fs"]
         path = rec.compress(binf, nc, fs, case["chunk"], keep_bin=False) if case["cbin"] else binf
-        sr = ctx.call("C01.open", sg.Reader, path, sort=case["sort"])
+        how = case.get("how", "default")
+        ctx.label("how_" + how)
+        if how in ("deferred", "context"):
+            sr = ctx.call("C01.open", sg.Reader, path, sort=case["sort"], open=False)
+            if sr is not ctx.CRASH and ctx.call("C01.open", sr.open if how == "deferred" else sr.__enter__) is ctx.CRASH:
+                return
+        else:
+            sr = ctx.call("C01.open", sg.Reader, str(path) if how == "str" else path, sort=case["sort"])
         if sr is ctx.CRASH:
             return
         try:
